@@ -39,6 +39,52 @@ def accepted_ops(fn, nontrivial=True):
     return acc
 
 
+TRIVIAL_CALLS = ("clone", "to_owned", "deref", "borrow", "into", "as_ref", "len", "is_empty", "unwrap", "last", "iter", "targets", "default")
+
+
+def accepted_ops_sem(F, fn, work=None):
+    """Semantic version of accepted_ops: the Operator variants for which the function *does something* — decided by
+    enumerating its paths under the assumption `op is V` (vlib.paths.variant_case), so it does not matter whether the
+    function is written as `match op {..}`, `if matches!(op, ..)`, with an early `return`, or through a local predicate
+    helper.  Candidates are the variants named in any pattern of fn and of the local predicates it calls, plus one
+    unnamed representative."""
+    from vlib.paths import variant_case
+    subj = {pm["pat"]["hid"] for pm in fn.get("params", []) if "wasmparser::Operator" in (pm.get("ty") or "") and pm["pat"].get("k") == "Binding"}
+    if not subj:
+        return accepted_ops(fn)
+    # locals that alias the subject (`let o = op;`)
+    named = set()
+
+    def collect(f_, depth=0):
+        for x in walk(f_["body"]):
+            if x.get("k") in ("Struct", "TupleStruct", "Path") and (x.get("adt") or x.get("res", {}).get("adt")) == OP:
+                v = x.get("variant") or x.get("res", {}).get("variant")
+                if v:
+                    named.add(v)
+            if depth < 2 and x.get("k") in ("Call", "MethodCall"):
+                t = F.by_path.get(x.get("inst") or x.get("callee") or "")
+                if t and len(t) == 1 and t[0].get("body") is not None and any("wasmparser::Operator" in (pm.get("ty") or "") for pm in t[0].get("params", [])) and t[0] is not f_:
+                    collect(t[0], depth + 1)
+    collect(fn)
+    other = next(v for v in sorted(F.variants(OP)) if v not in named)
+    if work is None:
+        def work(n):
+            return n.get("k") == "MethodCall" and n["method"] not in TRIVIAL_CALLS or (n.get("k") == "Call" and (n.get("callee") or "") in F.by_path)
+    acc = set()
+    for v in sorted(named) + [other]:
+        dec, sel, _ = variant_case(F, fn, subj, OP, v)
+
+        def clf(n):
+            return "W" if work(n) else None
+        try:
+            ps = paths(fn["body"], clf, decide_if=dec, select_arms=sel)
+        except CheckError:
+            return accepted_ops(fn)
+        if any("W" in ev for ev, st in ps if st != "panic"):
+            acc.add(v if v != other else "<other>")
+    return acc
+
+
 def openers_from_adt(F):
     """Operator variants that open a structured block: they carry a BlockType / TryTable payload."""
     out = set()
@@ -105,7 +151,7 @@ def block_tables(F, openers_clause=True):
                     if arm["body"].get("lit") == "Bool(true)":
                         acc |= arm_ops(arm)[0]
         else:
-            acc = accepted_ops(fn)
+            acc = accepted_ops_sem(F, fn) - {"<other>"}
         sites[name] = (fn, acc)
     for name, (fn, acc) in sites.items():
         got = acc & (BLOCK_STYLE | openers)
@@ -133,7 +179,7 @@ def block_tables(F, openers_clause=True):
             r.violate("%s | branch-set" % fn["path"], F.loc(fn), "%s handles branch operators %s, the Operator ADT has %s" % (label, sorted(got), sorted(br)))
     cbf = F.one_fn(name="create_bool_flag")
     r.analysed.append(cbf["path"])
-    cond = accepted_ops(cbf)
+    cond = accepted_ops_sem(F, cbf, work=lambda n: n.get("k") == "MethodCall" and n["method"] in ("after_at", "inject_all")) - {"<other>"}
     want_cond = br - {"Br", "BrTable"}
     ok = cond == want_cond
     r.ob(ok, {"site": "create_bool_flag", "conditional_branches": sorted(cond)})
@@ -143,7 +189,7 @@ def block_tables(F, openers_clause=True):
     # (4) function exit
     rfe = F.one_fn(name="resolve_function_exit")
     r.analysed.append(rfe["path"])
-    ex = accepted_ops(rfe)
+    ex = accepted_ops_sem(F, rfe, work=lambda n: n.get("k") == "MethodCall" and n["method"] == "inject_all") - {"<other>"}
     want = exit_ops_from_adt(F)
     r.count("adt_exit_ops", len(want))
     for o in sorted(want):
@@ -365,34 +411,28 @@ def special_flag(F):
                     r.ob(sets, {"fn": fn["path"], "writes": "block_alt", "sets_flag": sets})
                     if not sets:
                         r.violate("%s | block_alt write without flag" % fn["path"], F.loc(fn, n), "block_alt is set directly without raising has_special_instr")
-    # arms of InstrumentationFlag::add_instr
+    # InstrumentationFlag::add_instr, by cases on the current mode (shape-independent): it returns true exactly for the
+    # special modes (or diverges because the mode does not apply to the operator), false for the plain ones
+    from rules.modes import mode_case_callbacks
     ai = F.one_fn(name="add_instr", self_adt="InstrumentationFlag")
     r.analysed.append(ai["path"])
     special = {"SemanticAfter", "BlockEntry", "BlockExit", "BlockAlt"}
-    plain = {"Before", "After", "Alternate"}
-    for m in walk(ai["body"]):
-        if m.get("k") != "Match":
-            continue
-        for arm in m["arms"]:
-            modes = {x["variant"] for x in walk(arm["pat"]) if x.get("adt") == IM and x.get("variant")}
-            if not modes:
-                continue
-            # return values on non-diverging paths
-            rets = set()
+    for M in sorted(F.variants(IM)):
+        sel, inl = mode_case_callbacks(F, IM, M)
 
-            def cl(n):
-                if n.get("k") == "Lit" and n.get("lit", "").startswith("Bool"):
-                    return n["lit"]
-                return None
-            for ev, st in normal_paths(paths(arm["body"], cl)):
-                rets.add(ev[-1] if ev else None)
-            want = "Bool(true)" if modes <= special else "Bool(false)"
-            ok = rets == {want}
-            r.ob(ok, {"mode": sorted(modes), "returns": sorted(map(str, rets))})
-            if not ok:
-                r.violate("%s | %s returns" % (ai["path"], "+".join(sorted(modes))), F.loc(ai, arm),
-                          "arm for %s returns %s on some path (expected %s): the owner would %s" % (sorted(modes), sorted(map(str, rets)), want, "never resolve it" if want == "Bool(true)" else "resolve needlessly"))
-        break
+        def cl(n):
+            if n.get("k") == "Lit" and n.get("lit", "").startswith("Bool"):
+                return n["lit"]
+            return None
+        rets = set()
+        for ev, st in normal_paths(paths(ai["body"], cl, select_arms=sel, inline_calls=inl)):
+            rets.add(ev[-1] if ev else None)
+        want = "Bool(true)" if M in special else "Bool(false)"
+        ok = rets == {want}
+        r.ob(ok, {"mode": M, "returns": sorted(map(str, rets))})
+        if not ok:
+            r.violate("%s | %s returns" % (ai["path"], M), F.loc(ai),
+                      "with mode %s add_instr returns %s on some path (expected %s): the owner would %s" % (M, sorted(map(str, rets)), want, "never resolve it" if want == "Bool(true)" else "resolve needlessly"))
     # monotonic: the flag is only ever raised (`|= ..` or `= true`); recomputing or clearing it anywhere but after a
     # completed resolution loses pending instruction-level special injections (has_instr() of the function flag only
     # knows about entry/exit bodies)
